@@ -385,3 +385,12 @@ func retResults(ret *ssa.Return) []ssa.Value {
 	}
 	return out
 }
+
+// fieldNameOf: name of field i of the struct type t (or of the struct t points to).
+func fieldNameOf(t types.Type, i int) string {
+	st, ok := deref(t).Underlying().(*types.Struct)
+	if !ok || i < 0 || i >= st.NumFields() {
+		return ""
+	}
+	return st.Field(i).Name()
+}
